@@ -210,6 +210,24 @@ func c08Case(t *core.T, big bool) {
 			}
 		})
 	}
+	// in most other cases the worker is parked between the first removal phase and the first
+	// round of the second, and the chain goes on paying and spending coins of the wallet under
+	// removal there (the follower runs, the wallet's balance rows are already gone)
+	touchVictim := !restartBetweenRounds && t.R.Chance(65)
+	if touchVictim {
+		g.Close()
+		var once sync.Once
+		wd.W.Points.SetFn(func(name string) {
+			if name == "remove.round" {
+				first := false
+				once.Do(func() { first = true })
+				if first {
+					close(parked)
+					g.Wait()
+				}
+			}
+		})
+	}
 	defer g.Open()
 	// removal
 	t.Eval(1)
@@ -226,6 +244,25 @@ func c08Case(t *core.T, big bool) {
 	}
 	allKeys := wd.Keys
 	wd.Keys = survivors
+	if touchVictim {
+		select {
+		case <-parked:
+			wd.Keys = allKeys
+			for j := 0; j < t.R.Range(1, 3); j++ {
+				b, err := wd.Extend(t.R.Range(2, 4))
+				if err != nil {
+					t.Fatalf("extend: %v", err)
+				}
+				wd.W.Deliver(b)
+			}
+			wd.W.Quiesce(30 * time.Second)
+			wd.Keys = survivors
+			wd.Logf("(the blocks above arrived between the first and the second removal phase)")
+			t.Count("cases_with_victim_blocks_between_removal_phases", 1)
+		case <-time.After(20 * time.Second):
+		}
+		g.Open()
+	}
 	// blocks keep arriving while the removal runs; optionally a restart between rounds
 	restarted := 0
 	for i := 0; i < t.R.Range(1, 4); i++ {
@@ -294,6 +331,12 @@ func c08Case(t *core.T, big bool) {
 		return
 	}
 	if !gone {
+		if ok, sum, full := c20Structural(); ok {
+			w := wd.Witness()
+			w["goroutines"], w["dump"] = sum, full
+			t.Violate("removal-never-finishes", "the removed wallet is still listed and every wallet goroutine is idle: nobody will finish the removal", w)
+			return
+		}
 		t.Inconclusive("removal not finished after 120s (no structural witness)")
 		return
 	}
